@@ -9,6 +9,7 @@ import CimbaModel.Sim.S1SilentRun
 import CimbaModel.Sim.S1PoolRun
 import CimbaModel.Sim.S1SilentIRun
 import CimbaModel.Sim.S1Built
+import CimbaModel.Sim.S3Notice2
 import CimbaModel.HashHeap.Orders
 
 namespace CimbaModel.Props.C09
@@ -668,5 +669,49 @@ theorem endScen_after : ((runAll 6 endScen).proc 1).status = .finished ∧ ((run
 /-- … and, as an instance of `end_silences`, process 1 is silenced -/
 theorem endScen_silenced : Silenced (runAll 6 endScen) 1 :=
   end_silences_run (built_initAll endScen_built (by decide)) 6 1 (by rw [endScen_after.1]; decide)
+
+/-! ### `end_silences_all`: … and no cancellation notice either
+
+The remaining kind of wake-up: the CANCELLED notice of `cmb_condition_cancel` (an `aRes` event with a non-SUCCESS code).
+`S3.NI` (Sim/S3Notice*: every pending notice is addressed to a running process) is an invariant of `dispatch`: a notice is
+created only for a process that is on the condition's waiting list — suspended, hence running —, and `finishProc` cancels
+every pending event of the ending process before its status changes. -/
+
+theorem cancelled_notice_owner_reachable {w0 w : World} (hr : S3.Reach w0 w) (hi : S3.InitOkG w0) (hs : S3.SideOk w0)
+    (hn : S3.NI w0) :
+    ∀ e ∈ w.ev.pending, e.item.a = aRes → e.item.c ≠ 0 → 1 ≤ e.item.b ∧ (w.proc (e.item.b - 1)).status = .running :=
+  S3.cancelled_notice_owner_reachable hr hi hs hn
+
+/-- **`end_silences_all`** = `end_silences` + no pending `aRes` event of any kind (grant or cancellation notice) for a
+    process that is not running: every wake-up kind of the library is covered.  `S3.NI w0` (no notice pending initially for
+    a process that is not running) holds for every loader-built world. -/
+theorem end_silences_all {w0 w : World} (hi : InitAll w0) (hn : S3.NI w0) (hr : S3.Reach w0 w) (p : Pid)
+    (hp : (w.proc p).status ≠ .running) :
+    Silenced w p ∧ ∀ e ∈ w.ev.pending, e.item.b = p + 1 → e.item.a ≠ aRes := by
+  have hs := end_silences hi hr p hp
+  refine ⟨hs, ?_⟩
+  intro e he hb ha
+  by_cases hc : e.item.c = 0
+  · exact (hs.no_wakeup e he hb).2.2.2.2.2.2.2 ⟨ha, hc⟩
+  · have := (S3.cancelled_notice_owner_reachable hr hi.ok hi.side hn e he ha hc).2
+    rw [hb, Nat.add_sub_cancel] at this
+    exact hp this
+
+theorem end_silences_all_built {w0 w : World} (hb : S3.Built w0) (hsz : w0.procs.size < 2 ^ 31) (hr : S3.Reach w0 w)
+    (p : Pid) (hp : (w.proc p).status ≠ .running) :
+    Silenced w p ∧ ∀ e ∈ w.ev.pending, e.item.b = p + 1 → e.item.a ≠ aRes :=
+  end_silences_all (built_initAll hb hsz) hb.ni hr p hp
+
+/-- non-vacuity: in the stop scenario above the stopped process is silenced in this strongest sense -/
+theorem endScen_silenced_all : Silenced (runAll 6 endScen) 1 ∧
+    ∀ e ∈ (runAll 6 endScen).ev.pending, e.item.b = 1 + 1 → e.item.a ≠ aRes := by
+  refine ⟨endScen_silenced, ?_⟩
+  intro e he hb ha
+  have h3 := endScen_after.2.2
+  have : (e.item.a, e.item.b, decSig e.item.c) ∈ (runAll 6 endScen).ev.pending.map fun e => (e.item.a, e.item.b, decSig e.item.c) :=
+    List.mem_map.2 ⟨e, he, rfl⟩
+  rw [h3] at this
+  simp only [List.mem_singleton, Prod.mk.injEq] at this
+  rw [this.1] at ha; exact absurd ha (by decide)
 
 end CimbaModel.Props.C09
